@@ -117,6 +117,16 @@ func read(repo repository.Repo, ref string) (*Identity, error) {
 	i := &Identity{}
 
 	for _, hash := range hashes {
+		// the versions of an identity form a chain: a commit with several parents would splice
+		// another history (e.g. the versions of another identity) into this one
+		commit, err := repo.ReadCommit(hash)
+		if err != nil {
+			return nil, errors.Wrap(err, "can't read git commit")
+		}
+		if len(commit.Parents) > 1 {
+			return nil, fmt.Errorf("invalid identity data at hash %s: more than one parent", hash)
+		}
+
 		entries, err := repo.ReadTree(hash)
 		if err != nil {
 			return nil, errors.Wrap(err, "can't list git tree entries")
